@@ -36,6 +36,9 @@ def check(model, tier):
     from ..rules import reqeval as _reqeval
 
     _reqeval.r13_6_requirements(ctx)
+    from ..rules import mergeeval as _mergeeval
+
+    _mergeeval.r13_7_selection_stores_equivalent(ctx)
     from ..rules.foundation import run_foundation
 
     run_foundation(ctx, "13")
